@@ -216,7 +216,7 @@ class contentsSet(GenericEquality):
     def symmetric_difference_update(self, other):
         if not self.mutable:
             raise TypeError(f"immutable type {self!r}")
-        if not hasattr(other, "__contains__"):
+        if not isinstance(other, contentsSet):
             other = contentsSet(self._ensure_fsbase(other))
         l = []
         for x in self:
